@@ -399,10 +399,10 @@ class ClassRemovedBaseBreakage(Breakage):
     kind: BreakageKind = BreakageKind.CLASS_REMOVED_BASE
 
     def _format_old_value(self) -> str:
-        return "[" + ", ".join(base.canonical_path for base in self.old_value) + "]"
+        return "[" + ", ".join(base if isinstance(base, str) else base.canonical_path for base in self.old_value) + "]"
 
     def _format_new_value(self) -> str:
-        return "[" + ", ".join(base.canonical_path for base in self.new_value) + "]"
+        return "[" + ", ".join(base if isinstance(base, str) else base.canonical_path for base in self.new_value) + "]"
 
 
 # TODO: Check decorators? Maybe resolved by extensions and/or dynamic analysis.
